@@ -36,6 +36,7 @@ partial def parseExpr (j : Json) : Except String Expr := do
   | "sub" => do pure (.sub (← sub 1) (← sub 2))
   | "mul" => do pure (.mul (← sub 1) (← sub 2))
   | "neg" => do pure (.neg (← sub 1))
+  | "div" => do pure (.div (← sub 1) (← sub 2))
   | "min" => do pure (.min (← sub 1) (← sub 2))
   | "max" => do pure (.max (← sub 1) (← sub 2))
   | "le" => do pure (.le (← sub 1) (← sub 2))
@@ -313,7 +314,7 @@ def handle (j : Json) : Except String Json := do
       let env ← parseAssoc (← rj.getObjVal? "env")
       let t ← rj.getObjValAs? Nat "t"
       pure (Json.arr (names.toList.map fun n =>
-        match callF m P m.fuel (toEnv env ++ periodEnv t) n with
+        match evalAt m P env t n with
         | some (.num q) => Json.str (showRat q)
         | some (.bool b) => Json.str (if b then "1" else "0")
         | none => Json.null).toArray)
